@@ -313,3 +313,38 @@ class binaryop_overload_and_folding:
                      else (result.value == cand(l, r)(None) and result.dtype == cand(l, r).dtype))
                 for cand in OPERATORS[type(node)]))),
     ]
+
+
+# ---- Compiler.compile: positional placeholders are numbered in textual order ---------------------------------------------------------------------
+# The tree walk yields the placeholders in an order of its own; the compiler sorts them by source position (a stable sort
+# modelled by its permutation witnesses) and writes the rank into each node.  Precondition: the walk yields each node once.
+PINFO = Rec('parseinfo', attrs=dict(pos=Int(0)))
+PH = Rec('Placeholder', attrs=dict(name=Opt(Int(0)), parseinfo=PINFO), isa='beanquery.parser.ast:Placeholder')
+QUERY = Rec('Select', attrs={})
+
+
+@spec
+def placeholders_of(query):
+    """the placeholder nodes of the statement, in the order the tree walk yields them"""
+    return [node for node in query.walk() if isinstance(node, ext('beanquery.parser.ast.Placeholder'))]
+
+
+@contract(f'{CP}:Compiler.compile', 'positional')
+class compile_positional:
+    props = ['C09']
+    params = {'self': COMPILER, 'query': QUERY, 'parameters': ListOf(Dyn(), maxlen=3)}
+    method_results = {'walk': ListOf(PH, maxlen=3)}
+    callees = _callee_compile('compile')
+    requires = lambda query: all(all(placeholders_of(query)[a] != placeholders_of(query)[b] for b in range(a)) for a in range(len(placeholders_of(query))))
+    modifies = ['self.parameters', 'fields:name']
+    native = False
+    timeout = 20000
+    assumes = ["ATTRS_PRESENT", "METHODS_PRESENT", "the tree walk yields every placeholder node once (precondition); parameters is a list (the tuple and named-placeholder forms are bounded: h09)"]
+    raises = {'CompilationError': None, 'ProgrammingError': None, 'TypeError': None}
+    loops = {0: dict(fields=['name'], inv=lambda _seq, _i: all(_seq[j].name == j for j in range(_i)))}
+    ensures = [('parameters-bound', lambda self, parameters: self.parameters == parameters),
+               ('one-parameter-per-placeholder', lambda query, parameters: len(placeholders_of(query)) == 0 or len(placeholders_of(query)) == len(parameters)),
+               ('numbers-are-positions-in-range', lambda query: all(0 <= placeholders_of(query)[a].name < len(placeholders_of(query)) for a in range(len(placeholders_of(query))))),
+               ('numbered-in-textual-order', lambda query: all(all(
+                   not (placeholders_of(query)[a].parseinfo.pos < placeholders_of(query)[b].parseinfo.pos) or placeholders_of(query)[a].name < placeholders_of(query)[b].name
+                   for b in range(len(placeholders_of(query)))) for a in range(len(placeholders_of(query)))))]
